@@ -55,6 +55,7 @@ type attacker struct {
 	inst  *env.Instance // the malicious router's real state (keys, session with the victim)
 	vIP   netip.Addr    // victim address
 	known []netip.Addr  // other addresses the victim knows
+	keyless int
 	label []m.SwitchLabel
 }
 
@@ -350,6 +351,20 @@ func (a *attacker) traffic() (hostile, bool) {
 	}
 	pkt := ipv6Packet(src, dst, []uint8{6, 17, 58, 0, 255}[r.IntN(5)], uint16(r.IntN(65536)), uint16(r.IntN(65536)), n)
 	mt := []frame.MessageType{frame.NetworkTraffic, frame.NetworkTraffic, frame.SessionData, frame.SessionCtrl}[r.IntN(4)]
+	if r.IntN(5) == 0 && len(a.known) > 0 {
+		// traffic that claims a router the victim knows but shares no keys with and cannot reach (each such router
+		// is used rarely: error pings towards one router are rate limited)
+		a.keyless++
+		src := a.known[a.keyless%len(a.known)]
+		f, err := a.inst.BuilderV.NewFrameV1(src, a.vIP, mt, nil, ipv6Packet(src, a.vIP, 6, 1000, 80, 60), nil)
+		if err != nil {
+			return hostile{}, false
+		}
+		defer f.ReturnToPool()
+		f.SetSequenceNum(r.Uint32())
+		d, _ := f.FrameDataWithMargins(0, 0)
+		return hostile{data: append([]byte(nil), d...), kind: "traffic-from-known-router-without-keys", mtype: byte(mt)}, true
+	}
 	return a.sealed(mt, a.vIP, nil, pkt, nil, op)
 }
 
@@ -568,6 +583,13 @@ func syncVictim(res *core.Result, r *rand.Rand, nFrames int) {
 	}
 	ms.Drain(vmesh.FIFO, 100)
 	att := &attacker{r: r, inst: ms.Nodes[1].Inst, vIP: ids[0].IP, known: []netip.Addr{ids[2].IP, ids[3].IP, ids[4].IP}, label: labels}
+	// routers the victim has a record of (learned from gossip) but no keys with and no route to
+	for i := 0; i < 60; i++ {
+		id := env.NewIdentity(r, nil)
+		if err := ms.Nodes[0].Inst.StateV.AddRouter(&id.PublicAddress); err == nil {
+			att.known = append(att.known, id.IP)
+		}
+	}
 	V := ms.Nodes[0]
 	handlers := map[string]int{}
 	for i := 0; i < nFrames; i++ {
